@@ -271,20 +271,25 @@ WList(es, noSep, depth, pos, C) ==
 
 \* Entries are visited in the given order (that is the key order when the value was arranged by
 \* Canon, i.e. Sort = true).  With Sort = false the real writer visits them in any order: a guided
-\* writer takes, among the entries not yet written, the one whose separator+key+colon is what the
-\* guide text shows at the current position (the first one if none fits).
+\* writer takes, among the entries not yet written, one whose text (separator, key, colon, value) is
+\* what the guide text shows at the current position.  Keys written bare or raw can be prefixes of
+\* each other ("a" and "a:"), hence the whole entry is compared and the longest key is preferred; if
+\* nothing fits the first entry is taken (the result then differs from the guide text).
 WMap(es, noSep, depth, pos, C) ==
   IF es = <<>> THEN <<>>
-  ELSE LET fits == IF Guided(C)
-                   THEN {k \in DOMAIN es : IsPrefixAt(Spell(MapPre(es[k], noSep, depth, C)), C.guide, pos)}
-                   ELSE {}
-           k == IF fits = {} THEN 1 ELSE CHOOSE x \in fits : \A y \in fits : x <= y
-           e == es[k]
-           pre == MapPre(e, noSep, depth, C)
-           p1 == IF Guided(C) THEN pos + SLen(pre) ELSE 0
-           body == WV(e.val, depth + 1, p1, C)
-           p2 == IF Guided(C) THEN p1 + SLen(body) ELSE 0
-       IN pre \o body \o WMap(RemoveAt(es, k), C.ind < 0 /\ C.sdl /\ IsColl(e.val), depth, p2, C)
+  ELSE IF ~Guided(C)
+  THEN LET e == es[1]
+       IN MapPre(e, noSep, depth, C) \o WV(e.val, depth + 1, 0, C)
+          \o WMap(Tail(es), C.ind < 0 /\ C.sdl /\ IsColl(e.val), depth, 0, C)
+  ELSE LET fits == {k \in DOMAIN es : IsPrefixAt(Spell(MapPre(es[k], noSep, depth, C)), C.guide, pos)}
+           cands == IF fits = {} THEN {1} ELSE fits
+           ent == [k \in cands |-> LET pre == MapPre(es[k], noSep, depth, C)
+                                   IN pre \o WV(es[k].val, depth + 1, pos + SLen(pre), C)]
+           good == {k \in cands : IsPrefixAt(Spell(ent[k]), C.guide, pos)}
+           pool == IF good # {} THEN good ELSE cands
+           k == CHOOSE x \in pool : \A y \in pool :
+                   Len(es[x].key) > Len(es[y].key) \/ (Len(es[x].key) = Len(es[y].key) /\ x <= y)
+       IN ent[k] \o WMap(RemoveAt(es, k), C.ind < 0 /\ C.sdl /\ IsColl(es[k].val), depth, pos + SLen(ent[k]), C)
 
 Ctx(fmt, ind, dv, guide) == [sdl |-> fmt = "sdl", ind |-> ind, dv |-> dv, guide |-> guide]
 WriteToks(v, fmt, ind, dv) == WV(v, 0, 0, Ctx(fmt, ind, dv, <<>>))
